@@ -205,8 +205,15 @@ def run(spec):
             pause.set()
             alive = sum(1 for p in procs if p.is_alive())
             tb = time.time()
-            while idle.value < sum(1 for p in procs if p.is_alive()) and time.time() - tb < 3:
+            while idle.value < sum(1 for p in procs if p.is_alive()) and time.time() - tb < 10:
                 time.sleep(0.005)
+            if idle.value < sum(1 for p in procs if p.is_alive()):
+                # some client is still inside an operation (starved machine): the equality below is only meaningful when nobody
+                # holds a grant whose segment does not exist yet -- skip this barrier
+                res["stats"]["barriers_skipped_clients_busy"] = res["stats"].get("barriers_skipped_clients_busy", 0) + 1
+                pause.clear()
+                next_barrier = time.time() + 0.4
+                continue
             res["stats"]["barriers"] += 1
             # all clients idle: wait until the disk threads are idle too (numbers stable over two samples), then compare
             prev = None
